@@ -74,6 +74,9 @@ def cases(tier):
         for index in ("default", "filtered") if layout == "both+2" or t else ("default",):
             for a in small:
                 yield {"check": "pairs", "n": n_small, "a": a, "layout": layout, "index": index, "ops": "all"}
+    for a in tabs4:
+        if a:
+            yield {"check": "edited", "a": a}
     seqs = []
     for k in (1, 2):
         seqs += list(itertools.product(MOTIF_NAMES, repeat=k))
@@ -91,6 +94,8 @@ def run(case, ctx):
         run_pairs(case, ctx)
     elif case["check"] == "composed":
         run_composed(case, ctx)
+    elif case["check"] == "edited":
+        run_edited(case, ctx)
     else:
         raise ValueError(case["check"])
 
@@ -305,13 +310,64 @@ def run_single(case, ctx):
     ctx.sample("single", {"a": case["a"]})
 
 
+EDITS = ("none", "values", "shift", "widen")
+EDIT_QUERIES = [(None, None), (0, 2), (1, 3), (2, 5)]
+
+
+def run_edited(case, ctx):
+    """query -> in-place edit of the same array through its public column assignment -> query again: the second answer
+    must be the rows of the table as it is now."""
+    for extra in ([], [("2", 1, 3)]):
+        a_rows = [("1", s, e) for s, e in case["a"]] + extra
+        for first in ("in_range", "in_ranges"):
+            for edit in EDITS:
+                for chrom in ["1"] + (["2"] if extra else []):
+                    a, a_full = build(a_rows, "default")
+                    if first == "in_range":
+                        ctx.call(lambda: a.in_range(chrom, None, None))
+                    else:
+                        ctx.call(lambda: a.in_ranges(chrom, [0], [2]))
+                    cur = [tuple(r) for r in a_full]
+                    if edit == "values":
+                        a["val"] = a["val"] + 10.0
+                        cur = [r[:4] + (r[4] + 10.0,) for r in cur]
+                    elif edit == "shift":
+                        a["start"] = a["start"] + 1
+                        a["end"] = a["end"] + 1
+                        cur = [(r[0], r[1] + 1, r[2] + 1) + r[3:] for r in cur]
+                    elif edit == "widen":
+                        a["end"] = a["end"] + 1
+                        cur = [(r[0], r[1], r[2] + 1) + r[3:] for r in cur]
+                    crow = [r for r in cur if r[0] == chrom]
+                    f = "a-nested" if shape_of(cur) == "nested" else "a-simple"
+                    for s, e in EDIT_QUERIES:
+                        qs = -math.inf if s is None else s
+                        qe = math.inf if e is None else e
+                        for mode in MODES:
+                            if mode == "outer":
+                                want = [r for r in crow if r[1] < qe and r[2] > qs]
+                            elif mode == "inner":
+                                want = [r for r in crow if r[1] >= qs and r[2] <= qe]
+                            else:
+                                want = [(r[0], r[1] if s is None else max(r[1], s), r[2] if e is None else min(r[2], e)) + tuple(r[3:]) for r in crow if r[1] < qe and r[2] > qs]
+                            sub = {"extra": extra, "first_query": first, "edit": edit, "chrom": chrom, "start": s, "end": e, "mode": mode}
+                            got = ctx.call(lambda: rows_of(a.in_range(chrom, s, e, mode=mode)))
+                            cmp(ctx, f"in_range({mode}) returns exactly the {mode} rows the table holds now", f"edited/in_range/{mode}/after-{first}+{edit}/{f}", want, got, sub)
+                            got = ctx.call(lambda: rows_of(a.in_ranges(chrom, None if s is None else [s], None if e is None else [e], mode=mode)))
+                            cmp(ctx, f"in_ranges({mode}) returns exactly the {mode} rows the table holds now", f"edited/in_ranges/{mode}/after-{first}+{edit}/{f}", want, got, sub)
+                    ctx.state(("edited", case["a"], bool(extra), first, edit, chrom), nontrivial=edit != "none")
+                ctx.stratum(f"edited-{edit}")
+    ctx.sample("edited", {"a": case["a"]})
+
+
 MANIFEST = {
     "text": "Bounded-exhaustive exploration of the real range-query methods: every ordered pair of sorted interval multisets on a "
     "small grid, across seven chromosome layouts (shared, missing from either side, disjoint) and default / filtered row "
     "indexes, through by_ranges, iter_ranges_of, intersection, in_range(s) and into_ranges in every mode, compared row for "
     "row with brute-force selection by the definitions of outer/inner/trim. The nested-row mask path, the binary-search "
-    "path, the single-chromosome shortcut and empty tables are counted strata. Exhaustive inside the bound.",
+    "path, the single-chromosome shortcut and empty tables are counted strata. Histories on one array (a query, an in-place edit of "
+    "coordinates or values through column assignment, every query again) are judged against the rows the table holds afterwards. Exhaustive inside the bound.",
     "note": "Trusted: pandas/numpy; brute-force oracle (a list comprehension per mode). Not covered: unsorted tables, tables "
     "beyond the bound, into_ranges on integer columns / non-callable summaries.",
-    "technique": "exhaustive enumeration of (table, query table) pairs on the real code against a brute-force selection oracle",
+    "technique": "exhaustive enumeration of (table, query table) pairs on the real code against a brute-force selection oracle; stateless enumeration of query / in-place edit / query histories on one array",
 }
